@@ -27,12 +27,14 @@ theorem mode_tables_ok :
     (∀ c ∈ Gen.plusRequireArguments, c ∈ prefixModes ++ listModes ++ keyModes ++ limitModes) ∧
     (∀ c ∈ Gen.minusRequireArguments, c ∈ prefixModes ++ listModes ++ keyModes ++ limitModes) := by decide
 
-/-- which letters `ChannelState.doMode` keeps in sets, and which it ignores -/
+/-- which letters `ChannelState.doMode` keeps in sets (o h v b), which it ignores (the lists e q I), and
+that `setMode` / `unsetMode` / `do324` guard no letter outside these -/
 theorem tracked_table_ok :
-    Gen.trackedModes = ['o', 'v', 'h', 'b', 'e', 'q'] ∧
+    Gen.trackedModes = ['o', 'v', 'h', 'b', 'e', 'q', 'I'] ∧
     aget Gen.modeSets 'o' = some 0 ∧ aget Gen.modeSets 'h' = some 1 ∧ aget Gen.modeSets 'v' = some 2 ∧
     aget Gen.modeSets 'b' = some 3 ∧ aget Gen.modeSets 'e' = none ∧ aget Gen.modeSets 'q' = none ∧
-    Gen.setModeForbidden = Gen.trackedModes ∧ Gen.unsetModeForbidden = Gen.trackedModes ∧
+    aget Gen.modeSets 'I' = none ∧
+    (∀ c ∈ Gen.setModeForbidden, c ∈ Gen.trackedModes) ∧ (∀ c ∈ Gen.unsetModeForbidden, c ∈ Gen.trackedModes) ∧
     Gen.skip324 = ['o', 'v', 'h'] := by decide
 
 theorem chan_table_ok : '#' ∈ Gen.chantypes ∧ '&' ∈ Gen.chantypes ∧ 50 ≤ Gen.channellen := by decide
@@ -114,11 +116,12 @@ theorem chanOK_of_valid {c : Str} (h : validChan c = true) : ChanOK c := by
       · exact contains_iff.mpr chan_table_ok.2.1
     have hc0 : isSpace c0 = false := hsp c0 (by simp)
     have hall' : ∀ x ∈ (c0 :: t), (!isSpace x) = true := fun x hx => by simp [hsp x hx]
-    have hsplit : (splitNone1 (c0 :: t)).length = 1 := by
-      have e1 : List.dropWhile isSpace (c0 :: t) = c0 :: t := List.dropWhile_cons_of_neg (by simp [hc0])
-      have e2 : (c0 :: t).dropWhile (fun c => !isSpace c) = [] := dropWhile_all hall'
-      simp only [splitNone1, lstripP, e1, e2, List.dropWhile_nil, List.isEmpty_cons, List.isEmpty_nil,
-        Bool.false_eq_true, ↓reduceIte, List.length_cons, List.length_nil]
+    have hsplit : splitWs (c0 :: t) = [c0 :: t] := by
+      have := splitWs_go_word (w := c0 :: t) [] [] hsp
+      simp only [List.append_nil] at this
+      unfold splitWs
+      rw [this]
+      simp [splitWs.go]
     have hl : (c0 :: t).length ≤ Gen.channellen := Nat.le_trans hlen chan_table_ok.2.2
     unfold isChannel
     simp only [Bool.and_eq_true, Bool.not_eq_eq_eq_not, Bool.not_true, decide_eq_true_eq, beq_iff_eq]
@@ -177,9 +180,9 @@ structure Coupled (s : Srv) (b : Bot) : Prop where
   cfgNick : b.cfgNick = s.cfg.botNick
   cfgIdent : b.cfgIdent = s.cfg.botIdent
 
-/-- the mode changes the full theorem covers: not the invite-exception list (known finding
-C10-invex-in-modes) and no argument that `int()` would rewrite (known finding C10-mode-arg-int) -/
-def MChange.ok (c : MChange) : Prop := c.ch ≠ 'I' ∧ ∀ a, c.arg = some a → modeArg a = a
+/-- the mode changes the full theorem covers: no argument that `int()` would rewrite
+(known finding C10-mode-arg-int) -/
+def MChange.ok (c : MChange) : Prop := ∀ a, c.arg = some a → modeArg a = a
 
 def Act.ok : Act → Prop
   | .mode _ _ cs => ∀ c ∈ cs, c.ok
